@@ -66,6 +66,11 @@ def cases(tier, seed):
                    'eps': 1e-8, 'prec': 'c' if i % 8 >= 4 else None, 'start': i % 4 == 3, 'scalar': [0, 0.0][i % 2], 'zero_num': i % 4 != 3, 'zero_start': i % 4 == 3,
                    'vseed': rng.randrange(2 ** 40), 'sidx': 0})
     for i in range(40 if not T else 400):
+        # divisors that are not powers of two (compared at working precision), also as tensor scalars of ANOTHER dtype than the TT's
+        d = rng.randint(1, 4)
+        cs.append({'gen': 'scalar', 'N': [rng.choice((1, 2, 3, 4)) for _ in range(d)], 'R': gens.rank_profile(rng, d, 'rand', 3), 'scalar': rng.choice([3, 7, 10, 6, -3]),
+                   'kind': ['py', 't0_f32', 't0_i64', 't1_i32', 't0'][i % 5], 'dtype': ['f64', 'c128', 'f64', 'f32'][i % 4], 'ttm': i % 6 == 5, 'vseed': rng.randrange(2 ** 40), 'inexact': True})
+    for i in range(40 if not T else 400):
         d = rng.randint(1, 4)
         cs.append({'gen': 'scalar', 'N': [rng.choice((1, 2, 3, 4)) for _ in range(d)], 'R': gens.rank_profile(rng, d, 'rand', 3), 'scalar': rng.choice([2, 0.5, -4.0, 0.25, 8]),
                    'kind': ['py', 't0', 't1'][i % 3], 'dtype': ['f64', 'f32', 'c128'][i % 3], 'ttm': i % 5 == 4, 'vseed': rng.randrange(2 ** 40)})
@@ -83,6 +88,12 @@ def run_scalar(case, ctx, g):
     x = gens.make_tt(case['N'], case['R'], dt, 'int', g, M=[n % 2 + 1 for n in case['N']] if case['ttm'] else None)
     s = case['scalar']
     sv = s if case['kind'] == 'py' else (torch.tensor(float(s), dtype=dt) if case['kind'] == 't0' else torch.tensor([float(s)], dtype=dt))
+    if case['kind'] == 't0_f32':
+        sv = torch.tensor(float(s), dtype=torch.float32)
+    elif case['kind'] == 't0_i64':
+        sv = torch.tensor(int(s))
+    elif case['kind'] == 't1_i32':
+        sv = torch.tensor([int(s)], dtype=torch.int32)
     ctx.count('form:x/scalar')
     key = 'x/scalar/%s' % case['kind']
     what = 'x/%r (%s) N=%s R=%s %s' % (s, case['kind'], case['N'], case['R'], case['dtype'])
@@ -98,7 +109,14 @@ def run_scalar(case, ctx, g):
     if not isinstance(q, torchtt.TT):
         ctx.viol(key + '/clause=returns-non-TT', what)
         return
-    if not dn.bit_equal(dn.D(q), ref):
+    if case.get('inexact'):
+        ctx.count('form:x/scalar(not a power of two)')
+        if any(c.dtype != dt for c in q.cores):
+            ctx.viol(key + '/clause=dtype', '%s: result dtypes %s' % (what, sorted({str(c.dtype) for c in q.cores})))
+        err, allow = dn.fro(dn.D(q) - ref), 1e3 * dn.ueps(dt) * dn.s_rep(x) / abs(s)
+        if not err <= allow:
+            ctx.viol(key + '/clause=value', '%s: ||q - x/s|| = %.3e > %.3e (working precision of %s)' % (what, err, allow, case['dtype']))
+    elif not dn.bit_equal(dn.D(q), ref):
         ctx.viol(key + '/clause=value-exact', '%s: max diff %.3e' % (what, dn.max_abs_diff(dn.D(q), ref)))
     ctx.nontrivial(('scalar', tuple(case['N']), tuple(case['R']), s, case['kind'], case['dtype'], case['ttm']))
 
